@@ -4,6 +4,7 @@
 REPO=${1:-/repo}
 OUT=$(mktemp -d /tmp/baseline.XXXXXX)
 cd $REPO || exit 2
+touch $OUT/.start
 PYTHONPATH=$REPO OPENMDAO_REPORTS=0 /venv/bin/python -m pytest -ra -q -p no:cacheprovider --timeout=900 --continue-on-collection-errors \
    --junitxml=$OUT/junit.xml > $OUT/log 2>&1
 /venv/bin/python - "$OUT/junit.xml" <<'EOF'
@@ -19,4 +20,6 @@ print('stable_pass=%d passed_now=%d stable_not_passing=%d' % (len(stable), len(p
 for m in missing[:40]:
     print('  NOT PASSING:', m)
 EOF
+# the suite leaves untracked <name>_out report directories in its working directory: remove those it created
+find $REPO -maxdepth 1 -type d -name '*_out' -newer $OUT/.start -exec rm -rf {} + 2>/dev/null
 echo "log: $OUT/log"; [ -n "$KEEP_BASELINE_LOG" ] || rm -rf $OUT
